@@ -179,10 +179,14 @@ pub(crate) fn fence(ordering: Ordering) {
 fn fence_acq(execution: &mut Execution) {
     // Find all stores for all atomic objects and, if they have been read by
     // the current thread, establish an acquire synchronization.
+    //
+    // Only loads sequenced before the fence count: a store that was read by
+    // another thread, even one the current thread has synchronized with, does
+    // not synchronize with this fence.
     for state in execution.objects.iter_mut::<State>() {
         // Iterate all the stores
         for store in state.stores_mut() {
-            if !store.first_seen.is_seen_by_current(&execution.threads) {
+            if !store.first_seen.is_seen_by_active_thread(&execution.threads) {
                 continue;
             }
 
@@ -919,6 +923,11 @@ impl FirstSeen {
         }
 
         false
+    }
+
+    /// Returns `true` if the active thread itself has read (or written) the store.
+    fn is_seen_by_active_thread(&self, threads: &thread::Set) -> bool {
+        self.0[threads.active_id().as_usize()] != u16::MAX
     }
 
     fn is_seen_before_yield(&self, threads: &thread::Set) -> bool {
